@@ -15,7 +15,7 @@ from . import gen
 STRUCT_OPS = ['getitem_int', 'getitem_list', 'iterate', 'subset', 'subsample', 'subset_pattern', 'subsample_pattern',
               'reorder', 'sort_by_alpha', 'sort_by_list', 'append', 'concat', 'copy', 'roundtrip_matrix',
               'roundtrip_vector', 'roundtrip_dict', 'to_df', 'permute', 'from_partials', 'size_recovery']
-INPLACE_OPS = ['reorder', 'sort_by_alpha', 'sort_by_list', 'append', 'array_write']
+INPLACE_OPS = ['reorder', 'sort_by_alpha', 'sort_by_list', 'append', 'array_write', 'relabel']
 PRODUCER_OPS = ['rank_transform', 'sqrt_transform', 'positive_transform', 'minmax_transform', 'geotopological_transform',
                 'geodesic_transform', 'transform_fun', 'rescale', 'mean', 'compare', 'pool_rdm', 'model_predict',
                 'model_fit', 'eval_fixed', 'bootstrap_sample', 'sets_k_fold', 'get_vectors_write', 'get_matrices_write',
@@ -103,6 +103,8 @@ class RdmsOps:
         return [s for s in self.pool.of_kind('rdms') if (s.sem is not None or not sem_only) and s.obj.n_rdm > 0]
 
     def pick(self, o, key='t', sem_only=False, cands=None):
+        if getattr(self, '_force', None) is not None and cands is None and key == 't':
+            return self._force                # a composite step continues on the object it started with
         c = cands if cands is not None else self.rdms(sem_only)
         if not c:
             return None
@@ -397,7 +399,7 @@ class RdmsOps:
             df = src.obj.to_df()
         except Exception as e:
             return self._raise('to_df', e)
-        rdm_tab, pat_tab, nan_cells = self.pool.tables
+        rdm_tab, pat_tab, nan_cells = self.pool.tables_for(src.sem)
         missing = set(nan_cells) | set(src.sem.get('missing', ()))
         ru, cu = src.sem['ru'], src.sem['cu']
         nc = len(cu)
@@ -577,7 +579,8 @@ class RdmsOps:
                     for b in order[i + 1:]:
                         if a not in pc or b not in pc:
                             missing.add((rr, min(a, b), max(a, b)))
-            sem = {'ru': ru, 'cu': order, 'missing': missing, 'dropped_keys': ('grp', 'extra', 'pos', 'xyz')}
+            sem = {'ru': ru, 'cu': order, 'missing': missing, 'dropped_keys': ('grp', 'extra', 'pos', 'xyz'),
+                   'remap': src.sem.get('remap')}
         s = self.pool.add(res, 'rdms', sem, 'from_partials', [src.sid])
         self.pool.check_rdms(s, 'from_partials')
         # documented loss: only the chosen pattern descriptor survives from_partials (known finding if judged)
@@ -594,7 +597,8 @@ class RdmsOps:
                  and len(s.sem['cu']) == len(cset) and s.obj.dissimilarity_measure == first.obj.dissimilarity_measure
                  and set(s.obj.rdm_descriptors.keys()) == set(first.obj.rdm_descriptors.keys())
                  and set(s.obj.pattern_descriptors.keys()) == set(first.obj.pattern_descriptors.keys())
-                 and set(s.sem.get('missing', ())) == set(first.sem.get('missing', ()))]
+                 and set(s.sem.get('missing', ())) == set(first.sem.get('missing', ()))
+                 and (s.sem.get('remap') or {}) == (first.sem.get('remap') or {})]
         if not cands:
             return False
         others = [cands[o['u'] % len(cands)]]
@@ -626,7 +630,8 @@ class RdmsOps:
         dropped = set()
         for s_ in ops:
             dropped |= set(s_.sem.get('dropped_keys', ()))
-        sem = {'ru': ru, 'cu': list(first.sem['cu']), 'missing': missing, 'dropped_keys': tuple(sorted(dropped))}
+        sem = {'ru': ru, 'cu': list(first.sem['cu']), 'missing': missing, 'dropped_keys': tuple(sorted(dropped)),
+               'remap': first.sem.get('remap')}
         self._check_odesc(res, exp_od, 'concat')
         st = self.pool.add(res, 'rdms', sem, 'concat', [s.sid for s in ops])
         self.pool.check_rdms(st, 'concat')
@@ -705,7 +710,8 @@ class RdmsOps:
         cands = [s for s in self.rdms(True) if s.sid != t.sid and s.sem['cu'] == t.sem['cu']
                  and s.obj.dissimilarity_measure == t.obj.dissimilarity_measure
                  and set(t.obj.rdm_descriptors.keys()) <= set(s.obj.rdm_descriptors.keys())
-                 and set(s.sem.get('missing', ())) == set(t.sem.get('missing', ()))]
+                 and set(s.sem.get('missing', ())) == set(t.sem.get('missing', ()))
+                 and (s.sem.get('remap') or {}) == (t.sem.get('remap') or {})]
         if not cands:
             return False
         other = cands[o['u'] % len(cands)]
@@ -717,6 +723,58 @@ class RdmsOps:
         self.pool.check_rdms(t, 'append')
         self.pool.sweep('append', target=t.sid, args=[other.sid], inplace=True)
         self.ctx.behaviour('append', t.op, other.op)
+
+    def op_relabel(self, o):
+        """the user re-assigns the values of a grouping descriptor (a renaming of the groups): every later selection,
+        ordering or combination must go by the labels as they are now"""
+        t = self.pick(o, sem_only=True)
+        if t is None:
+            return False
+        axis = 'rdm' if o['flag'] else 'pattern'
+        d = t.obj.rdm_descriptors if axis == 'rdm' else t.obj.pattern_descriptors
+        if 'grp' not in d:
+            return False
+        cur = normlist(d['grp'])
+        distinct = sorted(set(cur), key=lambda x: (str(type(x)), x))
+        if len(distinct) < 2:
+            return False
+        f = dict(zip(distinct, distinct[::-1]))          # the group names swap places: same groups, other names and order
+        prime = o['flag2']
+        if prime:
+            # selections by the old labels came first (whatever they may have memoised must not outlive the re-assignment)
+            try:
+                if axis == 'rdm':
+                    t.obj.subset('grp', [cur[0]]), t.obj.subsample('grp', [cur[0], cur[-1]])
+                else:
+                    t.obj.subset_pattern('grp', [cur[0]]), t.obj.subsample_pattern('grp', [cur[0], cur[-1]])
+            except Exception:
+                prime = False
+        new = [f[v] for v in cur]
+        d['grp'] = np.array(new) if isinstance(d['grp'], np.ndarray) else new
+        tab = self.pool.tables[0 if axis == 'rdm' else 1]
+        remap = dict(t.sem.get('remap') or {})
+        old = remap.get((axis, 'grp')) or {}
+        labels = {norm(v['grp']) for v in tab.values() if 'grp' in v}
+        remap[(axis, 'grp')] = {L: f.get(old.get(L, L), old.get(L, L)) for L in labels}
+        t.sem = {**t.sem, 'remap': remap}
+        self.pool.check_rdms(t, 'relabel')
+        # an assignment to a descriptor is not among the documented in-place operations of C12: objects that share the
+        # dict with the target (known aliasing findings) are retired without a report
+        from .fp import fp_any
+        for b in self.pool.slots:
+            if b.alive and b.sid != t.sid and fp_any(b.obj) != b.snap:
+                b.snap, b.sem, b.alive = fp_any(b.obj), None, False
+                self.ctx.probe('retired_after_relabel')
+        t.snap = fp_any(t.obj)
+        self.ctx.probe('relabel')
+        self.ctx.behaviour('relabel', axis, t.op)
+        if prime and t.alive and t.sem is not None:
+            follow = (['subset', 'subsample'] if axis == 'rdm' else ['subset_pattern', 'subsample_pattern'])[o['a'][3] % 2]
+            self._force = t
+            try:
+                getattr(self, 'op_' + follow)({**o, 'a': [1] + list(o['a'][1:])})       # the same kind of selection, by 'grp', on the same object
+            finally:
+                self._force = None
 
     def op_array_write(self, o):
         t = self.pick(o)
